@@ -1,13 +1,24 @@
 from props import rc, TRUST
 
 PROP = dict(
-    rule='(a) SWEEP: every 3D extent in [0..12]^3 and 2D extent in [0..40]^2 (thorough: [0..24]^3, [0..128]^2), every '
-         'coordinate and flat index of each, and every for_each region with bounds in [-2..4]^6; (b) rapidcheck extents '
-         'with products up to 2^63 probed at corners, last index, 2^31/2^32 marks and random points, oracle in unsigned '
-         '__int128; non-trivial = extent with all sides different or product >= 2^31; distinct by (extent, probe)',
-    floor=dict(quick=1000, thorough=10000),
+    rule='(a) SWEEPS, complete on every run: every 3D extent in [0..18]^3 and 2D extent in [0..80]^2 (thorough [0..28]^3, '
+         '[0..160]^2) with every coordinate and every flat index of each (flatten/reshape/longIndex/coordsOf/indexOf '
+         'against a triple-loop counter; range-for, it++ and for_each(size) against an odometer); every for_each region '
+         'with bounds in [-3..4]^6 (thorough [-3..6]^6), all three overloads; every extent in [1..5]^3 (thorough [1..6]^3) '
+         'of ActualArray3D<uint8 owned / float external> with get at every coordinate of the extent enlarged by 2, clear, '
+         'numElements, getValueRange over every region, IndexShifted for every shift in [-size,2*size]^3, SubBox for every '
+         'clip box, three Accessor casts, MultiSlice with 1..5 slices.  (b) rapidcheck: size_t / vec3i extents with '
+         'products up to 2^63 / 2^62 probed at the 8 corners, last indices, the 2^31/2^32/2^33/2^48 marks and random '
+         'points (oracle in unsigned __int128); for_each regions anywhere in the int range; set/get/clear/getValueRange/'
+         'adaptor histories against a shadow std::map; ActualArray3D over a sparse mmap of (2^31, 2^33] cells with alias '
+         'partners at +-2^31 / +-2^32.  Non-trivial = extent whose sides all differ, or product >= 2^31 (for_each: '
+         'non-empty region whose sides all differ); sweeps count (extent, index / configuration, cell) tuples of such '
+         'extents (distinct by construction), rapidcheck counts distinct cases by hash',
+    floor=dict(quick=10000000, thorough=100000000),
     exhaustive=True,
-    assumptions=TRUST,
+    assumptions=TRUST + [
+        'Linux mmap(MAP_NORESERVE) of up to 32 GiB of address space succeeds (vm.overcommit_memory != 2) and fresh anonymous pages read 0',
+    ],
     bins=[
         rc('C17_index', 'harness/C17_index.cpp', None, thorough=dict(scale=5, seeds=2)),
         rc('C17_array', 'harness/C17_array.cpp', None, thorough=dict(scale=5, seeds=2)),
